@@ -121,11 +121,14 @@ func ruleC05(w *World, r *Report) {
 	// the four ways a session ends are all present
 	for _, n := range []string{"handleSessionDeletionRequest", "Shutdown", "handleSessionReportResponse"} {
 		f := w.Fn(P, "pfcpiface.(*PFCPConn)."+n)
+		if n == "Shutdown" {
+			f = w.teardownBody(P)
+		}
 		r.check(len(callsTo(f, remove)) >= 1, "R05.2", w.FuncName(f), n+" ends sessions through RemoveSession", w.Pos(f.Pos()), "call present", n+" no longer removes the session record / gauge unit")
 	}
 	// teardown loops: every stored session is ended on every iteration
 	{
-		sh := w.Fn(P, "pfcpiface.(*PFCPConn).Shutdown")
+		sh := w.teardownBody(P)
 		sn := w.FuncName(sh)
 		loops := rangeLoopsOver(sh, "GetAllSessions()")
 		if len(loops) == 0 {
